@@ -76,8 +76,10 @@ type eagrEnv struct {
 	name      string
 	version   protocol.ConsensusVersion
 	params    config.ConsensusParams
-	n         int    // number of accounts, 1 microalgo each
+	n         int    // number of accounts
 	threshold uint64 // of every step
+	total     uint64 // total online stake = size of every committee
+	stakes    []uint64
 	addrs     []basics.Address
 	vrfs      []*crypto.VRFSecrets
 	ots       []crypto.OneTimeSigner
@@ -141,16 +143,35 @@ var eagrEnvs = map[string]*eagrEnv{}
 // the given threshold for every step. Must first be called from the test goroutine (it writes
 // config.Consensus), before workers start.
 func eagrGetEnv(nAcct int, threshold uint64) *eagrEnv {
+	st := make([]uint64, nAcct)
+	for i := range st {
+		st[i] = 1
+	}
+	return eagrGetEnvStakes(st, threshold)
+}
+
+// eagrGetEnvStakes is eagrGetEnv with one stake (in microalgos) per account; every committee has the
+// size of the total stake, so every account's weight in every step equals its stake.
+func eagrGetEnvStakes(stakes []uint64, threshold uint64) *eagrEnv {
 	eagrEnvMu.Lock()
 	defer eagrEnvMu.Unlock()
-	name := fmt.Sprintf("verif-eagr-%dof%d", threshold, nAcct)
+	nAcct := len(stakes)
+	var total uint64
+	name := fmt.Sprintf("verif-eagr-%dof", threshold)
+	for _, x := range stakes {
+		total += x
+		name += fmt.Sprintf("-%d", x)
+	}
+	if total == uint64(nAcct) {
+		name = fmt.Sprintf("verif-eagr-%dof%d", threshold, nAcct)
+	}
 	if e, ok := eagrEnvs[name]; ok {
 		return e
 	}
-	env := &eagrEnv{name: name, version: protocol.ConsensusVersion(name), n: nAcct, threshold: threshold}
+	env := &eagrEnv{name: name, version: protocol.ConsensusVersion(name), n: nAcct, threshold: threshold, total: total, stakes: stakes}
 	p := config.Consensus[protocol.ConsensusCurrentVersion]
 	p.ApprovedUpgrades = map[protocol.ConsensusVersion]uint64{}
-	sz := uint64(nAcct)
+	sz := total
 	p.NumProposers = sz
 	p.SoftCommitteeSize, p.SoftCommitteeThreshold = sz, threshold
 	p.CertCommitteeSize, p.CertCommitteeThreshold = sz, threshold
@@ -189,7 +210,7 @@ func eagrGetEnv(nAcct int, threshold uint64) *eagrEnv {
 		env.rngs = append(env.rngs, rng)
 		env.acctOf[addr] = i
 		env.online[addr] = basics.OnlineAccountData{
-			MicroAlgosWithRewards: basics.MicroAlgos{Raw: 1},
+			MicroAlgosWithRewards: basics.MicroAlgos{Raw: stakes[i]},
 			VotingData: basics.VotingData{
 				VoteID:      ots.OneTimeSignatureVerifier,
 				SelectionID: vrf.PK,
@@ -283,7 +304,7 @@ func (l *eagrLedger) Circulation(r basics.Round, voteRnd basics.Round) (basics.M
 	if r >= l.next {
 		return basics.MicroAlgos{}, fmt.Errorf("eagrLedger: circulation of round %d not available (next %d)", r, l.next)
 	}
-	return basics.MicroAlgos{Raw: uint64(l.env.n)}, nil
+	return basics.MicroAlgos{Raw: l.env.total}, nil
 }
 
 func (l *eagrLedger) ConsensusParams(r basics.Round) (config.ConsensusParams, error) {
